@@ -10,6 +10,8 @@ COMMON_ASSUMPTIONS = [
 
 PROPS = {
     "C20": {
+        "level_text": 'The real id62 package is executed on boundary identifiers (all-zero, all-one, single bits, leading-zero-byte counts, 62^k±2, 2^128-1), 10^6 (quick) / 10^8 (thorough) PRNG-uniform identifiers and systematic + random strings; oracles: length 22, published pattern, Parse(String(id)) == id, positional base-62 reference for Parse, rejection of values >= 2^128, no panic, NewHash equal across calls, goroutines and worker processes.',
+        "level_note": 'Sampling of a 2^128 space plus boundaries; trusts math/big as positional reference with digit values derived from single-character parses.',
         "shards": 8,
         "rule": "cases: boundary identifiers (all-zero, all-one, each single bit and its complement, every leading-zero-byte count, 62^k±2, digit boundaries, 2^128-1..-4), PRNG-uniform identifiers, systematic and random strings offered to Parse, NewHash argument lists; every case is non-trivial; distinct by hash of the identifier bytes / the string.",
         "floors": ["id:all-zero", "id:all-one", "id:single-bit", "id:leading-zero-bytes", "id:power-of-62", "id:max",
@@ -18,5 +20,37 @@ PROPS = {
             "the digit value of each alphanumeric character is taken from the implementation (Parse of a 1-character string) and required to be a bijection onto 0..61; positional evaluation with math/big is the reference",
         ],
         "xproc_case": {"xproc:newhash-digest": "hash/pure"},
+    },
+    "C11": {
+        "level_text": 'Bounded-exhaustive token strings (<=4 quick, <=5 thorough lexemes over a 32-symbol alphabet), repository files with token-level mutations/truncations, grammar-directed and random Unicode inputs, each parsed in fail-fast and collect-all mode inside a journalled child; oracles: no panic/death, CPU work bound, exactly one of tree / non-empty diagnostics, every tree node and diagnostic position inside the input with start <= end, first diagnostic equal in both modes, HumanString(0..3) renders.',
+        "level_note": 'Exhaustive only for the stated token-string sub-space; everything else is sampled. Termination is judged by a CPU work bound, not proven.',
+        "shards": 16,
+        "rule": "cases: every string of <=4 (quick) / <=5 (thorough) lexemes over a 32-symbol alphabet (one or two lexemes per token kind plus error-prone fragments), joined by single spaces (every 10th also unseparated); every .j5s/.bcl file of the repository with token-level mutations and truncations; grammar-directed generated files with mutations and truncations; random Unicode incl. invalid UTF-8; hand-written edge cases. Each input is parsed in both modes. Every input counts as non-trivial; distinct by hash of the input text.",
+        "floors": ["c11:exhaustive", "c11:repo-file", "c11:generated", "c11:random", "c11:edge", "c11:accepted", "c11:rejected", "c11:multi-diagnostic"],
+        "assumptions": COMMON_ASSUMPTIONS + [
+            "'inside the input' means: line index < number of '\\n'-separated lines and column <= number of characters of that line (the slot after the last character is where EOL/EOF diagnostics point)",
+            "termination is judged by a CPU work bound of 2s + 50us per input byte per call; a wall-clock watchdog only yields 'inconclusive'",
+        ],
+    },
+    "C09": {
+        "level_text": "Every input the parser accepts from a systematic product of token kinds x grammatical positions, the repository's .j5s/.bcl files and grammar-directed random files is formatted; oracles: Fmt succeeds, output re-parses, position-free tree and comment sequence equal, Fmt(Fmt(x)) == Fmt(x).",
+        "level_note": "Equality of documents is judged on the parser's own tree (projection listed in the evidence assumptions); inputs are generated, not all texts.",
+        "shards": 16,
+        "rule": "cases: systematic products (every value/literal kind x key x operator x trailing comment; every tag/mark/qualifier form x every header ending; description, comment and blank-line layouts), every .j5s/.bcl file of the repository, grammar-directed generated files (strings with every escapable and non-ASCII character, regexes with slashes, nested arrays, block comments, multi-line descriptions, arbitrary indentation) and token-level mutations of them; only inputs the parser accepts are evaluated. Non-trivial = the accepted document has at least one statement; distinct by hash of the input text.",
+        "floors": ["fmt:systematic", "fmt:repo-file", "fmt:generated", "c09:accepted", "c09:string-escape", "c09:escaped-newline", "c09:non-ascii", "c09:block-comment", "c09:description", "c09:array", "c09:blank-lines", "c09:comments"],
+        "assumptions": COMMON_ASSUMPTIONS + [
+            "document equality is judged on the parser's own tree projected to: block type, tags with marks, qualifiers, nesting, assignment key/operator/literal kind+value (arrays recursively), descriptions as words and paragraph breaks; comments are compared as the re-lexed sequence of comment tokens (trailing blanks of line comments ignored)",
+            "whether a block was written with an empty body or without a body is not judged",
+        ],
+    },
+    "C19": {
+        "level_text": "Same input space as C09; for every input the formatter accepts FmtDiffs must return, edits must be ascending, non-overlapping, within 0 <= from <= to <= #lines, and the harness's own LSP-style applier must reproduce Fmt(x) up to trailing blank lines.",
+        "level_note": 'The edit applier is harness code modelled on internal/bcl/genlsp/format.go; inputs are generated, not all texts.',
+        "shards": 16,
+        "rule": "same input space as C09; only inputs the formatter accepts are evaluated. Non-trivial = input is not blank; distinct by hash of the input text.",
+        "floors": ["fmt:systematic", "fmt:repo-file", "fmt:generated", "c19:accepted", "c19:has-edits", "c19:multi-edit", "c19:escaped-newline", "c19:block-comment", "c19:description", "c19:blank-lines"],
+        "assumptions": COMMON_ASSUMPTIONS + [
+            "edits are applied the way the LSP server hands them to editors (internal/bcl/genlsp/format.go): an edit replaces the text from the start of line From to the start of line To, positions past the last line clamp to the end of the document, all edits refer to the original document; number of lines = number of '\\n' + 1",
+        ],
     },
 }
